@@ -26,7 +26,7 @@ from ..core import AnalysisError, Func, Repo, dotted, norm, parents
 from ..cfg import CFG
 from ..owners import writers
 from ..report import Check
-from ..util import call_name, calls_in, names_assigned_from, is_name_in, values_of, loop_exits
+from ..util import scope_nodes, call_name, calls_in, names_assigned_from, is_name_in, values_of, loop_exits
 
 MV = 'pydoctor.astbuilder.ModuleVistor'
 
@@ -40,6 +40,10 @@ def _static_version_test(t: ast.AST) -> Optional[bool]:
         op = t.ops[0]
         return {ast.GtE: cur >= tup, ast.Gt: cur > tup, ast.Lt: cur < tup, ast.LtE: cur <= tup, ast.Eq: cur == tup}.get(type(op))
     return None
+
+
+def const_str_(e: Optional[ast.AST]) -> Optional[str]:
+    return e.value if isinstance(e, ast.Constant) and isinstance(e.value, str) else None
 
 
 def run(repo: Repo, chk: Check, thorough: bool = False) -> None:
@@ -132,9 +136,18 @@ def run(repo: Repo, chk: Check, thorough: bool = False) -> None:
            f'@classmethod -> CLASS_METHOD, @staticmethod -> STATIC_METHOD (flags {flags})' if ok else
            f'decorator flags {flags} do not lead to the matching kinds {kinds}', hf.loc)
     old = repo.func(f'{MV}._handleOldSchoolMethodDecoration')
-    txt = ' '.join(norm(n) for n in old.walk() if isinstance(n, (ast.If, ast.Assign)))
+    old_scope = scope_nodes(repo, old)
+    txt = ' '.join(norm(n) for n in old_scope if isinstance(n, (ast.If, ast.Assign, ast.Dict)))
     ok2 = "'classmethod'" in txt and 'CLASS_METHOD' in txt and "'staticmethod'" in txt and 'STATIC_METHOD' in txt
     pairs_ok = True
+    # the mapping written as data: {'staticmethod': STATIC_METHOD, 'classmethod': CLASS_METHOD}
+    for d_ in [n for n in old_scope if isinstance(n, ast.Dict)]:
+        for k_, v_ in zip(d_.keys, d_.values):
+            lit_ = const_str_(k_)
+            if lit_ == 'classmethod' and 'CLASS_METHOD' not in norm(v_):
+                pairs_ok = False
+            if lit_ == 'staticmethod' and 'STATIC_METHOD' not in norm(v_):
+                pairs_ok = False
     for n in old.walk():
         if isinstance(n, ast.If) and isinstance(n.test, ast.Compare) and isinstance(n.test.comparators[0], ast.Constant):
             lit = n.test.comparators[0].value
@@ -299,8 +312,10 @@ def run(repo: Repo, chk: Check, thorough: bool = False) -> None:
            f'`__name__` is looked for in {sorted(sides)}' if both else
            f'`__name__` is only looked for in {sorted(sides)}: the body of `if \'__main__\' == __name__:` is documented although importing the module never binds it', im.loc)
     vi = repo.func(f'{MV}.visit_If')
-    ok = any(isinstance(n, ast.Raise) and 'SkipNode' in norm(n) and any(isinstance(p, ast.If) and 'is__name__equals__main__' in norm(p.test) for p in parents(n))
-             for n in vi.walk())
+    # on the CFG: every `raise SkipNode` of visit_If is dominated by the positive fact `is__name__equals__main__(...)` (named booleans written out)
+    cfvi = CFG(vi)
+    skips_vi = [n for n in vi.walk() if isinstance(n, ast.Raise) and 'SkipNode' in norm(n)]
+    ok = bool(skips_vi) and all(any(pol and isinstance(t, ast.Call) and call_name(t) == 'is__name__equals__main__' for t, pol in cfvi.dominating_tests(n)) for n in skips_vi)
     chk.ob('R03.5', f'{MV}.visit_If :: only the __main__ guard is skipped', ok, 'raise SkipNode under is__name__equals__main__(node.test)' if ok else
            'visit_If prunes blocks under another condition', vi.loc)
 
@@ -341,6 +356,11 @@ def run(repo: Repo, chk: Check, thorough: bool = False) -> None:
     fields_read = {c.args[1].value for c in calls_in(gc) if call_name(c) == 'getattr' and len(c.args) >= 2 and isinstance(c.args[1], ast.Constant)} | \
         {n.attr for n in gc.walk() if isinstance(n, ast.Attribute) and isinstance(n.value, ast.Name) and n.value.id == gc.params()[1].arg} | \
         {e.value for n in scope_nodes(repo, gc) if isinstance(n, (ast.Tuple, ast.List, ast.Set)) for e in n.elts if isinstance(e, ast.Constant) and isinstance(e.value, str)}
+    # a field may be read through a private helper that is handed its name: `yield from _iter_block(node, 'body')`
+    gc_helpers = [g for g in repo.funcs.values() if g.mod is gc.mod and g is not gc and g.name.startswith('_') and any(call_name(c) == g.name for c in calls_in(gc)) and
+                  any(call_name(c) == 'getattr' for c in calls_in(g))]
+    for g in gc_helpers:
+        fields_read |= {a.value for c in calls_in(gc) if call_name(c) == g.name for a in c.args if isinstance(a, ast.Constant) and isinstance(a.value, str)}
     if 'body' not in fields_read:
         raise AnalysisError('R03.7: NodeVisitor.get_children no longer reads the `body` field')
     additional = {}
@@ -358,12 +378,13 @@ def run(repo: Repo, chk: Check, thorough: bool = False) -> None:
                'missing from the documentation', gc.loc)
     # `body` / `orelse` are statement LISTS on statements but single EXPRESSIONS on ast.IfExp and ast.Lambda (and the walk reaches those
     # through expression statements): a field value may only be iterated once it is known to be a list
-    cfg_gc = CFG(gc)
-    # (an iteration is a `for` loop or a `yield from`)
-    for lp in [n for n in gc.walk() if isinstance(n, (ast.For, ast.YieldFrom))]:
+    cfg_gc0 = CFG(gc)
+    # (an iteration is a `for` loop or a `yield from`; in get_children itself or in the helper that reads the field)
+    for gcf, lp in [(g_, n) for g_ in [gc] + gc_helpers for n in g_.walk() if isinstance(n, (ast.For, ast.YieldFrom))]:
+        cfg_gc = cfg_gc0 if gcf is gc else CFG(gcf)
         src = lp.iter if isinstance(lp, ast.For) else lp.value
         if isinstance(src, ast.Name):
-            vals_ = [n.value for n in gc.walk() if isinstance(n, (ast.Assign, ast.AnnAssign)) and n.value is not None and
+            vals_ = [n.value for n in gcf.walk() if isinstance(n, (ast.Assign, ast.AnnAssign)) and n.value is not None and
                      any(isinstance(t, ast.Name) and t.id == src.id for t in (n.targets if isinstance(n, ast.Assign) else [n.target]))]
         else:
             vals_ = [src]
@@ -382,7 +403,7 @@ def run(repo: Repo, chk: Check, thorough: bool = False) -> None:
     extra_loops = [n for n in gc.walk() if isinstance(n, ast.For) and isinstance(n.iter, (ast.Tuple, ast.List)) and
                    any(isinstance(e, ast.Constant) and e.value in ('orelse', 'finalbody') for e in n.iter.elts)]
     for lp in extra_loops:
-        for t, pol in cfg_gc.dominating_tests(lp):
+        for t, pol in cfg_gc0.dominating_tests(lp):
             if pol and isinstance(t, ast.Call) and call_name(t) == 'isinstance' and len(t.args) == 2 and norm(t.args[0]) == node_p:
                 listed = {x.attr for x in ast.walk(t.args[1]) if isinstance(x, ast.Attribute) and dotted(x.value) == 'ast'}
                 need = {nm for owners in additional.values() for nm in owners}
@@ -497,7 +518,7 @@ def run(repo: Repo, chk: Check, thorough: bool = False) -> None:
                f'reached only when `{ap[1]} not in {ap[0]}.contents`' if free else
                'an assignment `name = OTHER_NAME` to an already documented variable is swallowed as an alias: the variable keeps the type and value of its '
                'earlier assignment, the attribute docstring that follows is lost', repo.loc(ha.mod, st_))
-    chk.require('R03.10', 5)
+    chk.require('R03.10', 3)
 
 
 
